@@ -344,6 +344,118 @@ def _moved_types(config, parsed):
     return out
 
 
+_UW = ("u16", "u32", "u64", "u128", "usize")
+
+
+def _helper_role(cname, f):
+    """the canonical name of a private integer / byte-source helper, recognised by its signature alone (what it does is verified by the
+    rules that use it; the name only says which rule looks at it)"""
+    if f.get("dk") not in ("Fn", "AssocFn") or "{closure" in (f.get("canon") or "") or "/tests/" in (f.get("file") or "") or f.get("exp"):
+        return None
+    ins, out = f.get("inputs") or [], f.get("output") or ""
+    m = re.match(r"^std::result::Result<(.*), (?:\w+::)*Error>$", out)
+    ok = m.group(1) if m else None
+    if cname == "postcard" and len(ins) == 1 and re.match(r"^&mut (\w+::)*Deserializer<", ins[0]) and ok in _UW:
+        return "try_take_varint_" + ok
+    if cname == "postcard_dyn" and ins == ["&[u8]"] and ok:
+        m2 = re.match(r"^\((\w+), &\[u8\]\)$", ok)
+        if m2 and m2.group(1) in _UW:
+            return "try_take_varint_" + m2.group(1)
+        if m2 and m2.group(1) == "u8":
+            return "take_one"
+    if cname == "postcard_dyn" and ins == ["&[u8]", "usize"] and ok == "(&[u8], &[u8])":
+        return "take_n"
+    strip = lambda t: re.sub(r"'\w+ ", "", t)
+    if cname == "postcard_dyn" and f.get("dk") == "Fn" and f.get("vis") != "Public":
+        # the two recursive walks
+        if len(ins) == 3 and ins[0].endswith("OwnedDataModelType") and ins[1] == "&serde_json::Value" and ins[2] == "&mut std::vec::Vec<u8>" and ok == "()":
+            return "ser_named_type"
+        if len(ins) == 2 and ins[0].endswith("OwnedDataModelType") and strip(ins[1]) == "&[u8]" and ok and strip(ok) == "(serde_json::Value, &[u8])":
+            return "deserialize"
+    if cname == "postcard" and f.get("dk") == "Fn" and f.get("vis") != "Public" and (f.get("parent") or "").endswith("max_size") and out == "usize" and not f.get("generics"):
+        if ins == ["usize"]:
+            return "varint_size"
+        if ins == ["usize", "usize"]:
+            return "max"
+    if f.get("dk") == "Fn" and len(ins) == 1 and not f.get("generics"):
+        if ins[0] in _UW[:4] and out == "i" + ins[0][1:]:
+            return "de_zig_zag_" + out
+        if out in _UW[:4] and ins[0] == "i" + out[1:]:
+            return "zig_zag_" + ins[0]
+    if f.get("dk") == "Fn" and len(ins) == 2 and ins[0] in _UW and out == "&mut [u8]" and re.match(r"^&mut \[u8; .*\]$", ins[1]):
+        return "varint_" + ins[0]
+    return None
+
+
+def _canonical_helpers(cname, j):
+    """Private helpers renamed since the rules were written are read under the names the rules know them by: a function that is the only one
+    of its crate with a helper's signature, when no function carries the canonical name any more.  Mutates the parsed facts of one crate."""
+    if cname not in ("postcard", "postcard_dyn"):
+        return []
+    byrole = {}
+    names = set()
+    for f in j.get("fns", []):
+        names.add(f.get("name"))
+        r = _helper_role(cname, f)
+        if r:
+            byrole.setdefault((r, f.get("parent", "").rsplit("::{impl", 1)[0] if cname == "postcard_dyn" else ""), []).append(f)
+    ren = []          # (old canon prefix, old name, new name)
+    for (role, _scope), fs in byrole.items():
+        if len(fs) != 1 or fs[0]["name"] == role or role in names:
+            continue
+        f = fs[0]
+        ren.append((f["canon"], f["name"], role))
+        tr = f.get("impl_trait") or f.get("in_trait")
+        if tr:
+            ren.append((tr + "::" + f["name"], f["name"], role))
+    # the byte-source helpers of postcard-dyn are methods of a private extension trait: its name is canonical too
+    trs = set((f.get("impl_trait") or "") for (role, _s), fs in byrole.items() if role in ("take_one", "take_n") and len(fs) == 1 for f in fs)
+    trs.discard("")
+    tren = None
+    if len(trs) == 1:
+        t = trs.pop()
+        if t.split("::")[-1] != "TakeExt" and not any((g.get("impl_trait") or "").endswith("::TakeExt") for g in j.get("fns", [])):
+            tren = (t.split("::")[-1], "TakeExt")
+            for (role, _s), fs in byrole.items():
+                if role in ("take_one", "take_n") and len(fs) == 1:
+                    ren.append((fs[0]["canon"], fs[0]["name"], fs[0]["name"] if fs[0]["name"] == role else role))
+                    ren.append((t + "::" + fs[0]["name"], fs[0]["name"], role))
+    if not ren:
+        return []
+
+    def fix(sv, oldn, newn):
+        sv = re.sub(r"::%s(?=$|::)" % re.escape(oldn), "::" + newn, sv)
+        if tren:
+            sv = re.sub(r"(?<![A-Za-z0-9_])%s(?![A-Za-z0-9_])" % re.escape(tren[0]), tren[1], sv)
+        return sv
+
+    def walk(o):
+        if isinstance(o, dict):
+            c = o.get("canon")
+            if isinstance(c, str):
+                for oc, oldn, newn in ren:
+                    if c == oc or c.startswith(oc + "::"):
+                        for k in ("def", "canon", "full", "parent", "trait", "impl_trait", "in_trait"):
+                            if isinstance(o.get(k), str):
+                                o[k] = fix(o[k], oldn, newn)
+                        if o.get("name") == oldn:
+                            o["name"] = newn
+                        break
+            cl = o.get("closure")
+            if isinstance(cl, str):
+                for oc, oldn, newn in ren:
+                    if cl.startswith(oc + "::") or ("::" + oldn + "::") in cl and cl.startswith(oc.split("::", 1)[-1].rsplit("::", 1)[0]):
+                        o["closure"] = fix(cl, oldn, newn)
+                        break
+            for v in o.values():
+                walk(v)
+        elif isinstance(o, list):
+            for v in o:
+                walk(v)
+    walk(j)
+    return [(o, n) for _, o, n in ren]
+
+
 class Facts:
     def __init__(self, config, root=None):
         self.config = config
@@ -362,6 +474,7 @@ class Facts:
                 for real, alias in self.moved:
                     t = re.sub(r"(?<![A-Za-z0-9_])%s(?![A-Za-z0-9_])" % re.escape(real), alias, t)
                 parsed[cname] = json.loads(t)
+            self.renamed_helpers = getattr(self, "renamed_helpers", []) + _canonical_helpers(cname, parsed[cname])
             self.crates[cname] = Crate(parsed[cname])
         self.n_bodies = sum(len(c.fns) for c in self.crates.values())
 
